@@ -39,6 +39,8 @@ type vC03Sys struct {
 	nids      int
 	inRecheck bool
 	texts     []string
+	extraQ    []string // additional queries (token-length shards)
+	lean      bool     // long texts: fewer k / restrictions per query, no second evaluation
 	idx       *BM25SearchIndex
 	docs      map[uint32]*vC03Doc // documents not yet flushed away (incl. soft-deleted)
 	ever      map[uint32]bool
@@ -205,8 +207,11 @@ func vAcceptDesc(ids []uint32, scores []float32, ref map[uint32]float64, k int) 
 }
 
 func (s *vC03Sys) observe(h []string) {
-	mkey := s.Key()
-	if !s.inRecheck {
+	mkey := s.cfgS + fmt.Sprint(len(h))
+	if !s.lean {
+		mkey = s.Key()
+	}
+	if !s.inRecheck && !s.lean {
 		defer func() {
 			// searching must not change later answers: evaluate the alphabet once more
 			s.inRecheck = true
@@ -230,10 +235,16 @@ func (s *vC03Sys) observe(h []string) {
 		}
 	}
 	queries := []string{"a", "b", "a b", "z", "", "FI", " ", "c É"}
+	queries = append(queries, s.extraQ...)
 	for qi, q := range queries {
 		ref := s.refScores(q)
-		for _, k := range []int{-1, 0, 1, 2, 10, math.MaxInt64} {
-			for ri, r := range [][]uint32{nil, {vIDBase + 1}, {vIDBase + 2, vIDBase + 9}} {
+		ks := []int{-1, 0, 1, 2, 10, math.MaxInt64}
+		if s.lean {
+			ks = []int{-1, 2}
+		}
+		for _, k := range ks {
+			// restrictions: absent ids, and ids named twice (a restriction is a set)
+			for ri, r := range [][]uint32{nil, {vIDBase + 1}, {vIDBase + 2, vIDBase + 9}, {vIDBase + 1, vIDBase + 1}, {vIDBase + 2, vIDBase + 1, vIDBase + 2}} {
 				s.c.Evaluations++
 				want := ref
 				if len(r) > 0 {
@@ -503,6 +514,83 @@ func vC03Large(c *vCtx, sizes []int) {
 	c.Sample(fmt.Sprintf("bm25 corpora of sizes %v: 3/4 removed, flush, purged ids re-added, flush, fresh add", sizes))
 }
 
+// vC03Lengths: the LENGTH of a token / of a document as a swept size parameter. For every
+// length L of the list and every family (a run of L ASCII letters, of L two-byte letters,
+// of L digits, of L spaces between two words, of L newlines, a document of L short words)
+// a four-document corpus around that text goes through add / remove / flush / replace /
+// re-add and is judged with the whole query alphabet plus the long token itself as a query.
+func vC03Lengths(c *vCtx, lens []int) {
+	fams := []struct {
+		name string
+		mk   func(l int) (text, query string)
+	}{
+		{"letters", func(l int) (string, string) { t := strings.Repeat("x", l); return t, t }},
+		{"two-byte letters", func(l int) (string, string) { t := strings.Repeat("é", l); return t, t }},
+		{"digits", func(l int) (string, string) { t := strings.Repeat("7", l); return t, t }},
+		{"spaces", func(l int) (string, string) { return "p" + strings.Repeat(" ", l) + "q", "q" }},
+		{"newlines", func(l int) (string, string) { return "p" + strings.Repeat("\n", l) + "q", "q p" }},
+		{"words", func(l int) (string, string) { return strings.Repeat("ab c ", l/2+1), "ab" }},
+		{"letters after words", func(l int) (string, string) { t := strings.Repeat("y", l); return "a b " + t + " c", t + " c" }},
+	}
+	done := 0
+	for _, l := range lens {
+		for _, f := range fams {
+			if c.Expired() {
+				c.Bound = fmt.Sprintf("token / document lengths: %d of %d lengths x %d families (deadline)", done, len(lens), len(fams))
+				return
+			}
+			text, q := f.mk(l)
+			texts := []string{text + " a", "a b", "b " + text, text, "a", "c a " + text + " a"}
+			s := &vC03Sys{c: c, cfgS: fmt.Sprintf("bm25 lengths family=%q L=%d", f.name, l), nids: 6, texts: texts, extraQ: []string{q, q + " a"}}
+			s.Reset()
+			var hist []vOp
+			s.lean = l > 4097
+			ap := func(op vOp, check bool) {
+				s.Apply(op, hist, check || !s.lean)
+				hist = append(hist, op)
+				c.Transitions++
+			}
+			for i := 0; i < 4; i++ {
+				ap(vOp{K: "Add", A: i + 1, B: i}, i == 3)
+			}
+			ap(vOp{K: "Remove", A: 3}, false)
+			ap(vOp{K: "Flush"}, true)
+			ap(vOp{K: "Replace", A: 1, B: 4}, false)
+			ap(vOp{K: "Add", A: 3, B: 5}, true)
+			c.Traces++
+			c.NewState(s.cfgS)
+		}
+		done++
+	}
+	c.Bound = fmt.Sprintf("token / document lengths %v x %d families", lens, len(fams))
+}
+
+// vC03Colliding: a corpus of terms that collide under the usual 32-bit hashes (and
+// anagrams); every term is a query; add all, remove every third, flush, replace, re-add.
+func vC03Colliding(c *vCtx) {
+	texts, queries := vSerCollidingTexts()
+	s := &vC03Sys{c: c, cfgS: "bm25 colliding-terms", nids: len(texts) + 1, texts: texts, extraQ: queries, lean: true}
+	s.Reset()
+	var hist []vOp
+	ap := func(op vOp, check bool) {
+		s.Apply(op, hist, check)
+		hist = append(hist, op)
+		c.Transitions++
+	}
+	for i := range texts {
+		ap(vOp{K: "Add", A: i + 1, B: i}, i%4 == 3 || i == len(texts)-1)
+	}
+	for i := 2; i < len(texts); i += 3 {
+		ap(vOp{K: "Remove", A: i + 1}, false)
+	}
+	ap(vOp{K: "Flush"}, true)
+	ap(vOp{K: "Replace", A: 1, B: 1}, true)
+	ap(vOp{K: "Add", A: 3, B: 0}, true)
+	c.Traces++
+	c.NewState(s.cfgS)
+	c.Bound = fmt.Sprintf("%d documents over %d hash-colliding term pairs", len(texts), len(texts)/2)
+}
+
 // vC03Runes: the token alphabet itself, exhaustively. For EVERY Unicode scalar value r in
 // [lo, hi] (and, with marks, for every letter x combining mark pair) a one-document corpus
 // "k <text>" is searched with the raw text, with its reference normal form
@@ -591,6 +679,21 @@ func init() {
 				bdepth = 4
 			}
 			sh = append(sh, vShard{Name: "bm25/builders", Run: func(c *vCtx) { vTextBuilderShard(c, bdepth) }})
+			lens := []int{1, 2, 3, 63, 64, 65, 255, 256, 257, 1023, 1024, 1025, 4095, 4096, 4097, 16383, 16384, 16385, 32767, 32768, 32769, 65535, 65536, 65537, 70000, 131071, 131072, 131073}
+			if tier == "thorough" {
+				lens = append(lens, 262143, 262144, 262145, 1<<20-1, 1<<20, 1<<20+1)
+			}
+			for part := 0; part < 4; part++ {
+				part := part
+				var mine []int
+				for i, l := range lens {
+					if i%4 == part {
+						mine = append(mine, l)
+					}
+				}
+				sh = append(sh, vShard{Name: fmt.Sprintf("bm25/lengths/%d", part), Run: func(c *vCtx) { vC03Lengths(c, mine) }})
+			}
+			sh = append(sh, vShard{Name: "bm25/colliding", Run: vC03Colliding})
 			sh = append(sh, vShard{Name: "bm25/sweep", Run: func(c *vCtx) { vC03Sweep(c, maxN) }})
 			sh = append(sh, vShard{Name: "bm25/endurance", Run: func(c *vCtx) { vC03Endurance(c, 70000) }})
 			lg := [][]int{{1500}, {2600}}
@@ -644,6 +747,20 @@ func init() {
 				var n int
 				fmt.Sscanf(v.Config, "bm25 endurance n=%d", &n)
 				vC03Endurance(c, n)
+				_, ok := c.viol[v.Sig()]
+				return ok
+			}
+			if strings.HasPrefix(v.Config, "bm25 lengths ") {
+				var l int
+				if i := strings.LastIndex(v.Config, " L="); i >= 0 {
+					fmt.Sscanf(v.Config[i:], " L=%d", &l)
+				}
+				vC03Lengths(c, []int{l})
+				_, ok := c.viol[v.Sig()]
+				return ok
+			}
+			if v.Config == "bm25 colliding-terms" {
+				vC03Colliding(c)
 				_, ok := c.viol[v.Sig()]
 				return ok
 			}
